@@ -393,42 +393,42 @@ package agent
 //@   props C07 C08 C19 C02
 //@   nopanic
 //@   noinv
-//@   ensures[C07] result == brank(first, second)
+//@   ensures[C07,C02] result == brank(first, second)
 //@ func (*collator_).rankBytes
 //@   props C07 C08 C19 C02
 //@   nopanic
 //@   noinv
-//@   ensures[C07] result == irank(first, second)
+//@   ensures[C07,C02] result == irank(first, second)
 //@ func (*collator_).rankRunes
 //@   props C07 C08 C19 C02
 //@   nopanic
 //@   noinv
-//@   ensures[C07] result == irank(first, second)
+//@   ensures[C07,C02] result == irank(first, second)
 //@ func (*collator_).rankSigned
 //@   props C07 C08 C19 C02
 //@   nopanic
 //@   noinv
-//@   ensures[C07] result == irank(first, second)
+//@   ensures[C07,C02] result == irank(first, second)
 //@ func (*collator_).rankUnsigned
 //@   props C07 C08 C19 C02
 //@   nopanic
 //@   noinv
-//@   ensures[C07] result == irank(first, second)
+//@   ensures[C07,C02] result == irank(first, second)
 //@ func (*collator_).rankFloats
 //@   props C07 C08 C19 C02
 //@   nopanic
 //@   noinv
-//@   ensures[C07] result == frank(first, second)
+//@   ensures[C07,C02] result == frank(first, second)
 //@ func (*collator_).rankComplex
 //@   props C07 C08 C19 C02
 //@   nopanic
 //@   noinv
-//@   ensures[C07] result == crank(first, second)
+//@   ensures[C07,C02] result == crank(first, second)
 //@ func (*collator_).rankStrings
 //@   props C07 C08 C19 C02
 //@   nopanic
 //@   noinv
-//@   ensures[C07] result == srank(first, second)
+//@   ensures[C07,C02] result == srank(first, second)
 
 // the natural rank of each primitive kind is a total preorder that agrees with Go's ==
 //@ lemma[C07] brank_preorder: forall a Bool, b Bool, c Bool :: brank(a, a) == 1 && brank(a, b) == 2 - brank(b, a) && (brank(a, b) <= 1 && brank(b, c) <= 1 ==> brank(a, c) <= 1)
@@ -576,45 +576,45 @@ package agent
 //@   props C08 C07 C19 C02
 //@   modifies this.depth_, cstate(this)
 //@   decreases this.maximum_ - this.depth_, 3, ptrh(first)
-//@   ensures[C08,C07] this.depth_ == old(this.depth_)
+//@   ensures[C08,C07,C02] this.depth_ == old(this.depth_)
 //@   defines result == rv(this, first, second)
-//@   ensures[C07] !rvalid(first) && !rvalid(second) ==> result == 1
-//@   ensures[C07] !rvalid(first) && rvalid(second) ==> result == 0
-//@   ensures[C07] rvalid(first) && !rvalid(second) ==> result == 2
-//@   ensures[C07] rvalid(first) && rvalid(second) && !compat(first, second) ==> result == srank(gtype(rtype(first)), gtype(rtype(second)))
-//@   ensures[C07] rvalid(first) && rvalid(second) && compat(first, second) && collkind(rkind(first)) && rnil(first) ==> result == ite(rnil(second), 1, 0)
-//@   ensures[C07] rvalid(first) && rvalid(second) && compat(first, second) && collkind(rkind(first)) && !rnil(first) && rnil(second) ==> result == 2
-//@   ensures[C07] result <= 2
+//@   ensures[C07,C02] !rvalid(first) && !rvalid(second) ==> result == 1
+//@   ensures[C07,C02] !rvalid(first) && rvalid(second) ==> result == 0
+//@   ensures[C07,C02] rvalid(first) && !rvalid(second) ==> result == 2
+//@   ensures[C07,C02] rvalid(first) && rvalid(second) && !compat(first, second) ==> result == srank(gtype(rtype(first)), gtype(rtype(second)))
+//@   ensures[C07,C02] rvalid(first) && rvalid(second) && compat(first, second) && collkind(rkind(first)) && rnil(first) ==> result == ite(rnil(second), 1, 0)
+//@   ensures[C07,C02] rvalid(first) && rvalid(second) && compat(first, second) && collkind(rkind(first)) && !rnil(first) && rnil(second) ==> result == 2
+//@   ensures[C07,C02] result <= 2
 // lexicographic order with a proper prefix first; when the first array is longer the operands are swapped and the result mirrored
 //@ define er(c, a, b, j) := rv(c, rindex(a, j), rindex(b, j))
 //@ define lexpost(c, a, b, r) := ((forall j :: 0 <= j && j < rlen(a) ==> er(c, a, b, j) == 1) ==> r == ite(rlen(a) < rlen(b), 0, 1)) && (forall k :: 0 <= k && k < rlen(a) && er(c, a, b, k) != 1 && (forall j :: 0 <= j && j < k ==> er(c, a, b, j) == 1) ==> r == er(c, a, b, k))
 //@ func (*collator_).rankArrays
 //@   props C08 C07 C19 C02
-//@   ensures[C07] result <= 2
+//@   ensures[C07,C02] result <= 2
 //@   modifies this.depth_, cstate(this)
 //@   decreases this.maximum_ - this.depth_, 1, ite(rlen(first) > rlen(second), 1, 0)
-//@   ensures[C08,C07] this.depth_ == old(this.depth_)
-//@   ensures[C07] rlen(first) <= rlen(second) ==> lexpost(this, first, second, result)
-//@   ensures[C07] rlen(first) > rlen(second) ==> lexpost(this, second, first, 2 - result)
+//@   ensures[C08,C07,C02] this.depth_ == old(this.depth_)
+//@   ensures[C07,C02] rlen(first) <= rlen(second) ==> lexpost(this, first, second, result)
+//@   ensures[C07,C02] rlen(first) > rlen(second) ==> lexpost(this, second, first, 2 - result)
 //@   loop 1:
 //@     invariant 0 <= i && this.depth_ == old(this.depth_) && this.depth_ < this.maximum_ && firstSize == rlen(first) && secondSize == rlen(second) && firstSize <= secondSize
 //@     invariant forall j :: 0 <= j && j < i ==> er(this, first, second, j) == 1
 //@     decreases firstSize - i
 //@ func (*collator_).rankMaps
 //@   props C08 C07 C19 C02
-//@   ensures[C07] result <= 2
-//@   ensures[C07] rlen(first) == 0 ==> result == ite(rlen(second) > 0, 0, 1)
-//@   ensures[C07] rlen(second) == 0 && rlen(first) > 0 ==> result == 2
+//@   ensures[C07,C02] result <= 2
+//@   ensures[C07,C02] rlen(first) == 0 ==> result == ite(rlen(second) > 0, 0, 1)
+//@   ensures[C07,C02] rlen(second) == 0 && rlen(first) > 0 ==> result == 2
 //@   modifies this.depth_, cstate(this)
 //@   decreases this.maximum_ - this.depth_, 1, ite(rlen(first) > rlen(second), 1, 0)
-//@   ensures[C08,C07] this.depth_ == old(this.depth_)
+//@   ensures[C08,C07,C02] this.depth_ == old(this.depth_)
 //@   uses cnt_pos, cnt_none
-//@   hint[C07] call SortValues#1: forall i :: { firstKeys[i] } 0 <= i && i < len(firstKeys) ==> cnt(view(firstKeys), 0, len(firstKeys), firstKeys[i]) >= 1
-//@   hint[C07] call SortValues#1: forall i :: { firstKeys[i] } 0 <= i && i < len(firstKeys) ==> rkeyof(firstKeys[i], first)
-//@   hint[C07] call SortValues#2: forall i :: { secondKeys[i] } 0 <= i && i < len(secondKeys) ==> cnt(view(secondKeys), 0, len(secondKeys), secondKeys[i]) >= 1
-//@   hint[C07] call SortValues#2: forall i :: { secondKeys[i] } 0 <= i && i < len(secondKeys) ==> rkeyof(secondKeys[i], second)
-//@   hint[C07] before call MapIndex#1: rkeyof($arg1, $recv)
-//@   hint[C07] before call MapIndex#2: rkeyof($arg1, $recv)
+//@   hint[C07,C02] call SortValues#1: forall i :: { firstKeys[i] } 0 <= i && i < len(firstKeys) ==> cnt(view(firstKeys), 0, len(firstKeys), firstKeys[i]) >= 1
+//@   hint[C07,C02] call SortValues#1: forall i :: { firstKeys[i] } 0 <= i && i < len(firstKeys) ==> rkeyof(firstKeys[i], first)
+//@   hint[C07,C02] call SortValues#2: forall i :: { secondKeys[i] } 0 <= i && i < len(secondKeys) ==> cnt(view(secondKeys), 0, len(secondKeys), secondKeys[i]) >= 1
+//@   hint[C07,C02] call SortValues#2: forall i :: { secondKeys[i] } 0 <= i && i < len(secondKeys) ==> rkeyof(secondKeys[i], second)
+//@   hint[C07,C02] before call MapIndex#1: rkeyof($arg1, $recv)
+//@   hint[C07,C02] before call MapIndex#2: rkeyof($arg1, $recv)
 //@   loop 1:
 //@     invariant 0 <= i && this.depth_ == old(this.depth_) && this.depth_ < this.maximum_
 //@     invariant firstSize == len(firstKeys) && secondSize == len(secondKeys) && firstSize <= secondSize
@@ -622,25 +622,25 @@ package agent
 //@     decreases firstSize - i
 //@ func (*collator_).rankSequences
 //@   props C08 C07 C19 C02
-//@   ensures[C07] result <= 2
+//@   ensures[C07,C02] result <= 2
 //@   modifies this.depth_, cstate(this)
 //@   decreases this.maximum_ - this.depth_, 2
-//@   ensures[C08,C07] this.depth_ == old(this.depth_)
+//@   ensures[C08,C07,C02] this.depth_ == old(this.depth_)
 //@ func (*collator_).rankInterfaces
 //@   props C08 C07 C19 C02
-//@   ensures[C07] result <= 2
+//@   ensures[C07,C02] result <= 2
 //@   modifies this.depth_, cstate(this)
 //@   decreases this.maximum_ - this.depth_, 2
-//@   ensures[C08,C07] this.depth_ == old(this.depth_)
+//@   ensures[C08,C07,C02] this.depth_ == old(this.depth_)
 //@   loop 1:
 //@     invariant 0 <= index && this.depth_ == old(this.depth_) && this.depth_ < this.maximum_
 //@     decreases count - index
 //@ func (*collator_).rankStructures
 //@   props C08 C07 C19 C02
-//@   ensures[C07] result <= 2
+//@   ensures[C07,C02] result <= 2
 //@   modifies this.depth_, cstate(this)
 //@   decreases this.maximum_ - this.depth_, 2
-//@   ensures[C08,C07] this.depth_ == old(this.depth_)
+//@   ensures[C08,C07,C02] this.depth_ == old(this.depth_)
 //@   loop 1:
 //@     invariant 0 <= index && this.depth_ == old(this.depth_) && this.depth_ < this.maximum_
 //@     decreases count - index
@@ -672,22 +672,22 @@ package agent
 // Uint 7, Uint8 8, Uint16 9, Uint32 10, Uint64 11, Float32 13, Float64 14, Complex64 15, Complex128 16, String 24)
 //@ func (*collator_).rankIntrinsics
 //@   props C08 C07 C19 C02
-//@   ensures[C07] result <= 2
-//@   ensures[C07] rkind(first) == 1 ==> result == brank(rbool(first), rbool(second))
-//@   ensures[C07] rkind(first) == 8 ==> result == irank(ruint(first) % 256, ruint(second) % 256)
-//@   ensures[C07] rkind(first) == 7 || rkind(first) == 9 || rkind(first) == 10 || rkind(first) == 11 ==> result == irank(ruint(first), ruint(second))
-//@   ensures[C07] rkind(first) == 2 || rkind(first) == 3 || rkind(first) == 4 || rkind(first) == 6 ==> result == irank(rint(first), rint(second))
-//@   ensures[C07] rkind(first) == 5 ==> result == irank((rint(first) + 2147483648) % 4294967296, (rint(second) + 2147483648) % 4294967296)
-//@   ensures[C07] rkind(first) == 13 || rkind(first) == 14 ==> result == frank(rfloat(first), rfloat(second))
-//@   ensures[C07] rkind(first) == 15 || rkind(first) == 16 ==> result == crank(rcplx(first), rcplx(second))
-//@   ensures[C07] rkind(first) == 24 ==> result == srank(rstr(first), rstr(second))
-//@   xensures[C07] !((1 <= rkind(first) && rkind(first) <= 11) || (13 <= rkind(first) && rkind(first) <= 16) || rkind(first) == 24)
-//@   ensures[C08,C07] this.depth_ == old(this.depth_)
+//@   ensures[C07,C02] result <= 2
+//@   ensures[C07,C02] rkind(first) == 1 ==> result == brank(rbool(first), rbool(second))
+//@   ensures[C07,C02] rkind(first) == 8 ==> result == irank(ruint(first) % 256, ruint(second) % 256)
+//@   ensures[C07,C02] rkind(first) == 7 || rkind(first) == 9 || rkind(first) == 10 || rkind(first) == 11 ==> result == irank(ruint(first), ruint(second))
+//@   ensures[C07,C02] rkind(first) == 2 || rkind(first) == 3 || rkind(first) == 4 || rkind(first) == 6 ==> result == irank(rint(first), rint(second))
+//@   ensures[C07,C02] rkind(first) == 5 ==> result == irank((rint(first) + 2147483648) % 4294967296, (rint(second) + 2147483648) % 4294967296)
+//@   ensures[C07,C02] rkind(first) == 13 || rkind(first) == 14 ==> result == frank(rfloat(first), rfloat(second))
+//@   ensures[C07,C02] rkind(first) == 15 || rkind(first) == 16 ==> result == crank(rcplx(first), rcplx(second))
+//@   ensures[C07,C02] rkind(first) == 24 ==> result == srank(rstr(first), rstr(second))
+//@   xensures[C07,C02] !((1 <= rkind(first) && rkind(first) <= 11) || (13 <= rkind(first) && rkind(first) <= 16) || rkind(first) == 24)
+//@   ensures[C08,C07,C02] this.depth_ == old(this.depth_)
 //@ func (*collator_).RankValues
 //@   props C08 C07 C19 C02
 //@   modifies this.depth_, cstate(this)
-//@   ensures[C08,C07] this.depth_ == old(this.depth_)
-//@   xensures[C08,C07] this.depth_ == old(this.depth_)
+//@   ensures[C08,C07,C02] this.depth_ == old(this.depth_)
+//@   xensures[C08,C07,C02] this.depth_ == old(this.depth_)
 
 //@ assume func reflect.TypeOf
 //@   nopanic
